@@ -108,10 +108,14 @@ def item_of(s):
 
 
 def build(stack, seed_override="keep"):
-    from .simdata import RootDataset
+    from .simdata import RootDataset, PlainTorchDataset
     r = stack["root"]
     clob = {int(k): tuple(v) for k, v in (r.get("clobber") or {}).items()}
-    ds = RootDataset(r["kind"], r["n"], clobber=clob, ctx_tags=bool(r.get("ctx_tags")), ds_id=r.get("ds_id", 0))
+    if r["kind"] == "torchwrap":
+        from kappadata.wrappers import TorchWrapper
+        ds = TorchWrapper(PlainTorchDataset(r["n"]), mode="x class")
+    else:
+        ds = RootDataset(r["kind"], r["n"], clobber=clob, ctx_tags=bool(r.get("ctx_tags")), ds_id=r.get("ds_id", 0))
     for layer in stack.get("below", []):
         ds = apply_layer(ds, layer)
     if stack.get("seeded"):
